@@ -2,6 +2,7 @@ package harness
 
 import (
 	"fmt"
+	"strings"
 	"math/big"
 
 	"github.com/consensys/gnark/frontend"
@@ -100,12 +101,39 @@ type lookupCircuit struct {
 	Idx  []frontend.Variable
 	R    frontend.Variable
 	rbit int
+	// constant entries around the variable ones: pads[0] before, pads[1] in the middle, pads[2] after
+	pads [3]int
+}
+
+// lookupLayout lists the table as (position of the variable entry, or -1-k for the constant 7+k)
+func lookupLayout(size int, pads [3]int) []int {
+	var l []int
+	k := 0
+	add := func(n int) {
+		for i := 0; i < n; i++ {
+			l = append(l, -1-k)
+			k++
+		}
+	}
+	add(pads[0])
+	for i := 0; i < size; i++ {
+		if i == size/2 {
+			add(pads[1])
+		}
+		l = append(l, i)
+	}
+	add(pads[2])
+	return l
 }
 
 func (c *lookupCircuit) Define(api frontend.API) error {
 	t := logderivlookup.New(api)
-	for i := range c.E {
-		t.Insert(c.E[i])
+	for _, e := range lookupLayout(len(c.E), c.pads) {
+		if e >= 0 {
+			t.Insert(c.E[e])
+		} else {
+			t.Insert(7 + (-1 - e))
+		}
 	}
 	out := t.Lookup(c.Idx...)
 	probe(api, 1, out...)
@@ -116,14 +144,47 @@ func (c *lookupCircuit) Define(api frontend.API) error {
 	return nil
 }
 
-func lookupCase(size, queries, rbit int) *gcase {
+func lookupCase(size, queries, rbit int) *gcase { return lookupCasePads(size, queries, rbit, [3]int{}) }
+
+func lookupCasePads(size, queries, rbit int, pads [3]int) *gcase {
 	mk := func() *lookupCircuit {
-		return &lookupCircuit{E: make([]frontend.Variable, size), Idx: make([]frontend.Variable, queries), rbit: rbit}
+		return &lookupCircuit{E: make([]frontend.Variable, size), Idx: make([]frontend.Variable, queries), rbit: rbit, pads: pads}
 	}
+	name := fmt.Sprintf("lookup%dx%d+rc%d", size, queries, rbit)
+	if pads != [3]int{} {
+		name += fmt.Sprintf("+pads%v", pads)
+	}
+	layout := lookupLayout(size, pads)
+	total := len(layout)
+	var lastEnts []*big.Int
 	return &gcase{
-		Name:        fmt.Sprintf("lookup%dx%d+rc%d", size, queries, rbit),
+		Name:        name,
 		Circuit:     mk(),
 		NeedsCommit: true,
+		// every variable entry of the table must be among the values committed before the
+		// challenge of the log-derivative argument is derived (a table left out of the commitment
+		// can be chosen after the challenge is known)
+		BaseCheck: func(honest []hintCall) string {
+			committed := map[string]bool{}
+			ncommit := 0
+			for _, c := range honest {
+				if strings.HasSuffix(c.Name, "hashCommitHint") {
+					ncommit++
+					for _, x := range c.In {
+						committed[x.String()] = true
+					}
+				}
+			}
+			if ncommit == 0 {
+				return ""
+			}
+			for i, e := range lastEnts {
+				if !committed[e.String()] {
+					return fmt.Sprintf("the value of variable table entry %d (%s) is not among the %d values committed for the lookup argument's challenge", i, e, len(committed))
+				}
+			}
+			return ""
+		},
 		Assign: func(tape *simrt.Tape, q *big.Int) (frontend.Circuit, bool, func(map[int][]*big.Int) string, string) {
 			a := mk()
 			ents := make([]*big.Int, size)
@@ -134,6 +195,8 @@ func lookupCase(size, queries, rbit int) *gcase {
 				}
 				a.E[i] = ents[i]
 			}
+			lastEnts = ents
+			size := total // indices address the whole table, constants included
 			sat := true
 			idx := make([]*big.Int, queries)
 			for j := range idx {
@@ -169,7 +232,11 @@ func lookupCase(size, queries, rbit int) *gcase {
 			check := func(p map[int][]*big.Int) string {
 				want := make([]*big.Int, queries)
 				for j := range want {
-					want[j] = ents[idx[j].Int64()]
+					if e := layout[idx[j].Int64()]; e >= 0 {
+						want[j] = ents[e]
+					} else {
+						want[j] = bi(int64(7 + (-1 - e)))
+					}
 				}
 				return eqInts(p[1], want...)
 			}
@@ -182,6 +249,7 @@ var c13Cases = []*gcase{
 	rcCaseReps(3, 64, 64), rcCaseReps(1, 32, 100), rcCaseReps(5, 16, 200), rcCaseReps(7, 64, 40), rcCaseReps(2, 60, 300), rcCaseReps(12, 64, 2000),
 	rcCase(1, 0), rcCase(3, 0), rcCase(8, 0), rcCase(11, 5), rcCase(16, 64), rcCase(31, 0), rcCase(64, 7), rcCase(100, 0), rcCase(253, 0),
 	lookupCase(1, 1, 0), lookupCase(2, 2, 0), lookupCase(5, 3, 0), lookupCase(16, 4, 9), lookupCase(40, 2, 0), lookupCase(300, 3, 12),
+	lookupCasePads(4, 2, 0, [3]int{0, 0, 1}), lookupCasePads(6, 3, 0, [3]int{0, 0, 4}), lookupCasePads(5, 2, 8, [3]int{2, 0, 0}), lookupCasePads(8, 3, 0, [3]int{1, 2, 3}),
 }
 
 func c13Run(w *Worker, tape *simrt.Tape) *Outcome {
@@ -209,6 +277,10 @@ func (c *gadgetCircuit) Define(api frontend.API) error {
 	case "bounded":
 		bc := cmp.NewBoundedComparator(api, c.bound, false)
 		probe(api, 1, bc.IsLess(c.A, c.B), bc.IsLessEq(c.A, c.B), bc.Min(c.A, c.B))
+	case "bounded-big":
+		// deterministic mode with a bound relative to the field: 2^(FieldBitLen - n)
+		bc := cmp.NewBoundedComparator(api, new(big.Int).Lsh(big.NewInt(1), uint(api.Compiler().FieldBitLen()-c.n)), false)
+		probe(api, 1, bc.IsLess(c.A, c.B), bc.IsLessEq(c.A, c.B))
 	case "bounded-assert":
 		bc := cmp.NewBoundedComparator(api, c.bound, false)
 		bc.AssertIsLessEq(c.A, c.B)
@@ -276,6 +348,10 @@ func gadgetCase(kind string, n int, bound int64) *gcase {
 		Name:        name,
 		Circuit:     mk(),
 		NeedsCommit: needsCommit,
+		// the bounded comparator in deterministic mode documents a single, well-defined behaviour
+		// even outside its domain, and a panic at construction for bounds that are too big
+		Unique:        kind == "bounded" || kind == "bounded-big",
+		MayNotCompile: kind == "bounded-big",
 		Assign: func(tape *simrt.Tape, q *big.Int) (frontend.Circuit, bool, func(map[int][]*big.Int) string, string) {
 			c := mk()
 			a, b, s := drawBiased(tape, q), drawBiased(tape, q), bi(0)
@@ -352,6 +428,33 @@ func gadgetCase(kind string, n int, bound int64) *gcase {
 					// documented: either no proof, or the correct result: "sat" is free, outputs are not
 					return fixAB(c, a, b, s), sat, check, "free-verdict:" + fmt.Sprintf("a=%s d=%s", a, d)
 				}
+			case "bounded-big":
+				// differences around the bound 2^(fb-n) and in the zone next to the modulus where the
+				// documentation only promises determinism
+				L := new(big.Int).Lsh(bi(1), uint(q.BitLen()-n))
+				a = new(big.Int)
+				var d *big.Int
+				switch tape.Choose(simrt.SWorkload, 6) {
+				case 0:
+					d = new(big.Int).Sub(new(big.Int).Lsh(bi(1), uint(q.BitLen()-1)), bi(1)) // 2^(fb-1) - 1
+				case 1:
+					d = new(big.Int).Sub(L, bi(int64(tape.Choose(simrt.SWorkload, 3))))
+				case 2:
+					d = new(big.Int).Sub(q, new(big.Int).Add(L, bi(int64(tape.Choose(simrt.SWorkload, 5)))))
+				case 3:
+					d = new(big.Int).Lsh(L, 1)
+					d.Sub(d, bi(int64(1+tape.Choose(simrt.SWorkload, 5))))
+				case 4:
+					d = drawValue(tape, q)
+				default:
+					d = bi(int64(tape.Choose(simrt.SWorkload, 1000)))
+				}
+				if tape.Choose(simrt.SWorkload, 2) == 0 {
+					a, b = new(big.Int).Mod(d, q), bi(0)
+				} else {
+					a, b = bi(0), new(big.Int).Mod(d, q)
+				}
+				return fixAB(c, a, b, s), true, func(map[int][]*big.Int) string { return "" }, "free-verdict:" + fmt.Sprintf("a=%s b=%s", a, b)
 			case "mux":
 				s = bi(int64(tape.Choose(simrt.SWorkload, n+2)))
 				if tape.Choose(simrt.SWorkload, 8) == 0 {
@@ -437,7 +540,7 @@ func fixAB(c *gadgetCircuit, a, b, s *big.Int) *gadgetCircuit {
 
 var c14Cases = []*gcase{
 	gadgetCase("isless", 0, 0),
-	gadgetCase("bounded", 0, 1), gadgetCase("bounded", 0, 100), gadgetCase("bounded", 0, 65535), gadgetCase("bounded-assert", 0, 100), gadgetCase("bounded-assertless", 0, 7),
+	gadgetCase("bounded", 0, 1), gadgetCase("bounded", 0, 100), gadgetCase("bounded", 0, 65535), gadgetCase("bounded-assert", 0, 100), gadgetCase("bounded-assertless", 0, 7), gadgetCase("bounded-big", 2, 0), gadgetCase("bounded-big", 3, 0), gadgetCase("bounded-big", 4, 0),
 	gadgetCase("mux", 2, 0), gadgetCase("mux", 3, 0), gadgetCase("mux", 5, 0), gadgetCase("mux", 8, 0), gadgetCase("mux", 9, 0),
 	gadgetCase("map", 1, 0), gadgetCase("map", 4, 0), gadgetCase("map", 7, 0),
 	gadgetCase("slice", 2, 0), gadgetCase("slice", 5, 0), gadgetCase("slice", 8, 0),
